@@ -40,8 +40,10 @@ def isEscGt (c : Char) : Bool := c == '>'
 def contentClsN (n : Nat) : Bool := isEscTextN n
 def contentCls (c : Char) : Bool := contentClsN c.toNat
 
-/-- does that default pattern also select the `>` of `]]>`?  (It does not: it *is* `P_ESCAPE_TEXT`.) -/
-def contentEscapesCdataEnd : Bool := false
+/-- does that default pattern also select the `>` of `]]>`?  (`P_ESCAPE_CONTENT` ends in
+`|(?<=\]\])>`; before the repair the default was `P_ESCAPE_TEXT` and `]]>` was written raw, which
+no XML parser accepts in character data.) -/
+def contentEscapesCdataEnd : Bool := true
 
 /-- `html.entities.codepoint2name` restricted to the printable ASCII range `" "`‥`"~"`
 (the only range `_escape_char` consults it for); `none` = `KeyError`. -/
@@ -78,6 +80,19 @@ def escapeChar (c : Char) : Str :=
 def escape (cls : Char → Bool) : Str → Str
   | [] => []
   | c :: rest => if cls c then escapeChar c ++ escape cls rest else c :: escape cls rest
+
+/-- `P_ESCAPE_CONTENT.sub(_escape_char, s)` with `P_ESCAPE_CONTENT = [class]|(?<=\]\])>`:
+besides the class, a `>` directly after `]]` is replaced.  `nb` = number of `]` directly before
+the current position (2 stands for "two or more"); the look-behind reads the *input*. -/
+def escapeC (cls : Char → Bool) : Nat → Str → Str
+  | _, [] => []
+  | nb, c :: rest =>
+    let nb' := if c = ']' then (if nb = 0 then 1 else 2) else 0
+    if cls c || (c == '>' && nb == 2) then escapeChar c ++ escapeC cls nb' rest
+    else c :: escapeC cls nb' rest
+
+/-- `_escape(s, pattern=P_ESCAPE_CONTENT)`: how element text, tails and comment tails are written -/
+def escapeContent (s : Str) : Str := escapeC contentCls 0 s
 
 /-- does `_escape` raise (`KeyError` from `codepoint2name`)? -/
 def escapeRaises (cls : Char → Bool) (s : Str) : Bool :=
@@ -241,21 +256,21 @@ def unmappedAttrs (parentKeys : List Str) (nsmap : List (Str × Str))
 
 /-- `_serialize_text`: the written characters and the returned column.  As coded the return
 value is `len(last line) + (pos if there was more than one line else 0)`. -/
-def serText (cls : Char → Bool) (multiline : Bool) (text : Option Str) (pos : Nat) : Str × Nat :=
+def serText (esc : Str → Str) (multiline : Bool) (text : Option Str) (pos : Nat) : Str × Nat :=
   match text with
   | none => ([], pos)
   | some [] => ([], pos)
   | some s =>
     let lines := splitNl s
-    (joinSep (if multiline then ['\n'] else []) (lines.map (escape cls)),
+    (joinSep (if multiline then ['\n'] else []) (lines.map esc),
      (lines.getLast?.getD []).length + (if lines.length > 1 then pos else 0))
 
 /-- `_serialize_comment` (the incoming `pos` is ignored by the code) -/
 def serComment (indent : Nat) (c : Comment) : Str × Nat :=
-  let t := serText isEscGt false (some c.text) (2 * indent)
+  let t := serText (escape isEscGt) false (some c.text) (2 * indent)
   let head := '\n' :: (ind indent ++ "<!--".toList ++ t.1 ++ "-->".toList)
   if pyNonBlank c.tail then
-    let tl := serText isEscText false c.tail t.2
+    let tl := serText escapeContent false c.tail t.2
     (head ++ tl.1, tl.2)
   else
     (head ++ '\n' :: ind indent, 2 * indent)
@@ -288,7 +303,7 @@ def serElem (ll : Nat) (pns : List (Str × Str)) (isRoot : Bool) (indent pos : N
     if text.isNone && kids.isEmpty && !alwaysExpanded tag then
       ('<' :: tagS ++ a.1 ++ "/>".toList, a.2 + 2)
     else
-      let t := if pyNonBlank text then serText isEscText true text a.2 else ([], a.2)
+      let t := if pyNonBlank text then serText escapeContent true text a.2 else ([], a.2)
       let k := serKids ll nsmap (indent + 1) tail t.2 (pyNonBlank text) kids
       let c : Str × Nat :=
         if !kids.isEmpty && !k.2.2 then ('\n' :: ind indent, 2 * indent) else ([], k.2.1)
@@ -304,7 +319,7 @@ def serKids (ll : Nat) (nsmap : List (Str × Str)) (indent : Nat) (ptail : Optio
     let e := serElem ll nsmap false indent pre.2 kid
     let t : Str × Nat × Bool :=
       if pyNonBlank ptail then
-        let x := serText isEscText false ptail e.2
+        let x := serText escapeContent false ptail e.2
         (x.1, x.2, true)
       else ([], e.2, false)
     let r := serKids ll nsmap indent ptail t.2.1 t.2.2 rest
@@ -325,7 +340,7 @@ def serialize (ll : Nat) (siblings : Bool) (pns : List (Str × Str)) (isRoot : B
   let p := serComments (if siblings then d.pre else []) 0
   let e := serElem ll pns isRoot 0 p.2 d.root
   -- the value returned by `_serialize_element` is dropped: `pos` is still `p.2`
-  let t := if pyNonBlank d.root.tail then serText isEscText true d.root.tail p.2 else ([], p.2)
+  let t := if pyNonBlank d.root.tail then serText escapeContent true d.root.tail p.2 else ([], p.2)
   let q := serComments (if siblings then d.post else []) t.2
   p.1 ++ e.1 ++ t.1 ++ q.1 ++ ['\n']
 
